@@ -159,6 +159,16 @@ def workload(tier, seed, scale=1.0):
             for sb in (1, -1):
                 for sm in (1, -1):
                     cmds.append(cmd_modinv(sb * b, sm * m, 'I', ('modinv', 'I', sb, sm, n, fam, bfam)))
+    # special-value pool as moduli and bases
+    from ..core import special_values
+    pool = [v for v in special_values() if v > 0]
+    for m in (pool if not quick else pool[::3]):
+        for b in (pool[::7] + [m - 1, m, m + 1]):
+            e = rnd.choice((0, 1, 2, 3, 65537, 1 << 64))
+            cmds.append(cmd_modpow(b, e, m, 'U', ('modpow', 'U', 'pool', m.bit_length() // 32, b.bit_length() // 32, eclass(e))))
+            sb, sm = rnd.choice((1, -1)), rnd.choice((1, -1))
+            cmds.append(cmd_modpow(sb * b, e, sm * m, 'I', ('modpow', 'I', 'pool', sb, sm, m.bit_length() // 32)))
+            cmds.append(cmd_modinv(sb * b, sm * m, 'I', ('modinv', 'I', 'pool', sb, sm, m.bit_length() // 32)))
     # digit-aligned block patterns (runs of 0 / MAX / 1 digits) for base and modulus: Montgomery
     # intermediates then contain saturated and zero digits, which is where carries/borrows of the
     # conditional subtractions have to ripple through equal digits
